@@ -337,3 +337,72 @@ Proof.
     rewrite (vev_qcre_first M a l Hx Hq). symmetry. apply zsum_zero.
     intros [[[j p] b] q] _. rewrite (vev_qcre_first M a [b] Hx Hq). lia.
 Qed.
+
+(* ---------- normal-ordered products ---------- *)
+(* N[o1 ... on] with respect to the reference: quasi-creators to the left,
+   relative orders kept, sign = parity of the number of
+   (quasi-annihilator, quasi-creator) inversions.  For elementary operators
+   (each is a quasi-creator or a quasi-annihilator) this is the textbook
+   definition. *)
+Fixpoint inv_parity (M : orbmodel) (l : list eop) : bool :=
+  match l with
+  | [] => false
+  | x :: r => xorb (inv_parity M r)
+                   (if qcre M x then false else Nat.odd (length (filter (qcre M) r)))
+  end.
+Definition normal_order (M : orbmodel) (l : list eop) : bool * list eop :=
+  (inv_parity M l, filter (qcre M) l ++ filter (fun o => negb (qcre M o)) l).
+
+(* a product with normal-ordered groups: (true, g) = N[g], (false, g) = g *)
+Definition group := (bool * list eop)%type.
+Fixpoint expand_groups (M : orbmodel) (gs : list group) : bool * list eop :=
+  match gs with
+  | [] => (false, [])
+  | (is_no, g) :: r =>
+      let (s, l) := expand_groups M r in
+      if is_no then let (t, g') := normal_order M g in (xorb s t, g' ++ l)
+      else (s, g ++ l)
+  end.
+Definition gvev (M : orbmodel) (gs : list group) : Z :=
+  let (s, l) := expand_groups M gs in (zsgn s * vev M l)%Z.
+
+(* two operators of the same class anticommute exactly *)
+Lemma acomm_same_class M (a b : eop) : qcre M a = qcre M b -> acomm a b = false.
+Proof.
+  unfold qcre, qann, acomm. destruct a as [ca x], b as [cb y]; simpl. intros H.
+  destruct (Nat.eqb x y) eqn:E; [|apply andb_false_r].
+  apply Nat.eqb_eq in E. subst y. rewrite andb_true_r.
+  destruct ca, cb, (is_occ M x); simpl in *; try reflexivity; discriminate.
+Qed.
+Theorem vev_swap_same_class M (u : list eop) (a b : eop) (v : list eop) :
+  qcre M a = qcre M b -> vev M (u ++ a :: b :: v) = (- vev M (u ++ b :: a :: v))%Z.
+Proof.
+  intros H. pose proof (car_vev M u a b v) as Hc.
+  rewrite (acomm_same_class M a b H) in Hc. simpl b2z in Hc. lia.
+Qed.
+
+(* the expectation value of a non-empty normal-ordered product vanishes *)
+Theorem vev_normal_ordered M (l : list eop) :
+  l <> [] -> (forall o, In o l -> snd o < norb M) ->
+  vev M (snd (normal_order M l)) = 0%Z.
+Proof.
+  intros Hne Hlt. unfold normal_order. simpl snd.
+  destruct (filter (qcre M) l) as [|c cs] eqn:E.
+  - simpl app.
+    assert (Hall : forall o, In o l -> qcre M o = false).
+    { intros o Ho. destruct (qcre M o) eqn:Eo; [|reflexivity].
+      assert (In o (filter (qcre M) l)) by (apply filter_In; auto).
+      rewrite E in H. destruct H. }
+    assert (Hf : filter (fun o => negb (qcre M o)) l = l).
+    { clear E Hne Hlt. induction l as [|x r IH]; [reflexivity|]. simpl.
+      rewrite (Hall x) by (left; reflexivity). simpl. f_equal. apply IH.
+      intros o Ho. apply Hall. right; exact Ho. }
+    rewrite Hf. destruct (exists_last Hne) as (l' & a & ->).
+    apply vev_qann_last.
+    assert (Ha : In a (l' ++ [a])) by (apply in_or_app; right; left; reflexivity).
+    specialize (Hall a Ha).
+    unfold qcre in Hall. apply negb_false_iff in Hall. exact Hall.
+  - assert (Hc : In c (filter (qcre M) l)) by (rewrite E; left; reflexivity).
+    apply filter_In in Hc. destruct Hc as [Hin Hq].
+    simpl app. apply vev_qcre_first; auto.
+Qed.
